@@ -151,7 +151,7 @@ Qed.
 Lemma compacted_files_unfold : forall g al now_s ord h1 h2 s1 s2 d, setting g ord h1 h2 s1 s2 d ->
   compacted_files g al now_s ord h1 h2 =
   if makeup_fails (length (cidx s1)) s2 then old_files s2
-  else fold_left (mstep (g_osz g) (cv s2) d) ord (compact al (g_vttl g) now_s s1).
+  else fold_left (mstep (cv s2) d) ord (compact al (g_vttl g) now_s s1).
 Proof.
   intros g al now_s ord h1 h2 s1 s2 d S. unfold compacted_files.
   rewrite <- (st_s1 _ _ _ _ _ _ _ S). rewrite <- (st_s2 _ _ _ _ _ _ _ S).
@@ -163,11 +163,10 @@ Theorem invisible_partial : forall g al now_s now_r ord h1 h2,
   Permutation ord (default_ord g h1 h2) ->
   has_empty (h1 ++ h2) = false ->
   ttl_consistent (g_vttl g) now_s now_r h1 = true ->
-  within_32g g al now_s ord h1 h2 = true ->
   reload_noop g al now_s ord h1 h2 = true ->
   forall id, read_of (compacted g al now_s ord h1 h2) now_r id = read_of (twin g h1 h2) now_r id.
 Proof.
-  intros g al now_s now_r ord h1 h2 P Hemp Httl H32 Hnoop id.
+  intros g al now_s now_r ord h1 h2 P Hemp Httl Hnoop id.
   destruct (setting_intro g ord h1 h2 P) as [s1 [s2 [d S]]].
   destruct S as [E1 E2 I1 I2 G Hd Hdiff Htw Hnd Hord].
   assert (S : setting g ord h1 h2 s1 s2 d) by (constructor; assumption).
@@ -177,7 +176,6 @@ Proof.
   { rewrite E1. apply exec_nozero; [apply cinv_init | apply nozero_init |]. intros ev Hin. apply Hne, in_or_app. auto. }
   assert (Z2 : nozero s2).
   { rewrite E2. apply exec_nozero; [exact I1 | exact Z1 |]. intros ev Hin. apply Hne, in_or_app. auto. }
-  unfold within_32g in H32. apply andb_prop in H32. destruct H32 as [B2 BF]. apply N.leb_le in B2, BF. rewrite Htw in B2.
   unfold reload_noop in Hnoop. unfold read_of, compacted. rewrite Htw.
   set (F := compacted_files g al now_s ord h1 h2) in *.
   rewrite (commit_noop F Hnoop).
@@ -189,7 +187,7 @@ Proof.
                  (content fin id = None /\ exists p, content (cv s2) id = Some p /\ read_pl now_r p = None)).
   { unfold fin. rewrite content_files.
     assert (EF : F = if makeup_fails (length (cidx s1)) s2 then old_files s2
-                     else fold_left (mstep (g_osz g) (cv s2) d) ord (compact al vt now_s s1))
+                     else fold_left (mstep (cv s2) d) ord (compact al vt now_s s1))
       by (apply (compacted_files_unfold g al now_s ord h1 h2 s1 s2 d S)).
     destruct (makeup_fails (length (cidx s1)) s2).
     - (* makeupDiff failed: the old files are reloaded *)
@@ -210,11 +208,8 @@ Proof.
           destruct (size_deleted (ie_size e)) eqn:D; [|reflexivity]. apply size_deleted_neg in D. apply size_valid_pos in V. lia. }
         destruct (idx_live _ _ _ I2 (Hpre _ _ Hg) Dd) as [L _].
         destruct (live_facts _ _ _ _ I2 L) as [_ [_ [_ [r [Hf [Hsz _]]]]]]. exists r. auto. }
-      assert (Hoff : forall k e, idx_get d k = Some e -> ie_off e < 34359738368).
-      { intros k e Hg. pose proof (idx_get_In _ _ _ (Hpre _ _ Hg)) as Hin.
-        pose proof (ci_idx_off _ I2 e Hin). lia. }
       assert (FI : finv F0 F) by (rewrite EF; apply fold_finv; assumption).
-      pose proof (makeup_idx (g_osz g) (cv s2) d ord F0 id Hnd) as MI. simpl in MI. rewrite <- EF in MI.
+      pose proof (makeup_idx (cv s2) d ord F0 id Hnd) as MI. simpl in MI. rewrite <- EF in MI.
       destruct (idx_get d id) as [e|] eqn:Gd.
       + (* the key has an .idx entry of the second phase *)
         assert (Hin : In id ord) by (apply Hord; congruence).
@@ -228,8 +223,7 @@ Proof.
             - apply negb_true_iff, N.eqb_neq. exact Ho.
             - apply negb_true_iff, Z.eqb_neq. exact Hnz.
             - apply size_valid_pos. lia. }
-          assert (BF' : f_end (fold_left (mstep (g_osz g) (cv s2) d) ord F0) <= 34359738368) by (rewrite <- EF; exact BF).
-          destruct (makeup_upd (g_osz g) (cv s2) d ord F0 id _ r Hnd Hs0 Hm0 Hsrc Hoff BF' Hin Gd U Hf Hsz)
+          destruct (makeup_upd (cv s2) d ord F0 id _ r Hnd Hs0 Hm0 Hsrc Hin Gd U Hf Hsz)
             as [noff [r' [Hi' [H8 [Hf' Hpl]]]]].
           rewrite <- EF in Hi', Hf'. simpl in Hi'. left. rewrite Hi'. unfold entry_valid. simpl.
           assert (O : negb (noff =? 0) = true) by (apply negb_true_iff, N.eqb_neq; lia).
@@ -294,7 +288,7 @@ Proof.
     fold vt.
     set (a := match al with Scan => compact_scan vt now_s s1 | Index => compact_index vt now_s s1 end) in *.
     pose proof (compact_spec al vt now_s s1 I1) as CS. fold a in CS. destruct CS as [Cs Ca Cm Csome Cnone].
-    pose proof (makeup_idx (g_osz g) (cv s2) d ord (files_of a) id Hnd) as MI. cbv zeta in MI.
+    pose proof (makeup_idx (cv s2) d ord (files_of a) id Hnd) as MI. cbv zeta in MI.
     destruct (idx_get d id) as [e|] eqn:Gd.
     + assert (Hin : In id ord) by (apply Hord; congruence).
       destruct (in_dec N.eq_dec id ord) as [_|Hx]; [|contradiction]. destruct MI as [o' MI].
@@ -309,13 +303,12 @@ Proof.
       rewrite Hdel, Hi1 in Hi. inversion Hi. lia.
 Qed.
 
-(* ---------- the four ways the full statement fails ---------- *)
+(* ---------- the three ways the full statement fails ---------- *)
 Definition nd (id : N) (data : bytes) (flags lastmod : N) (t : N * N) : needle :=
   {| n_id := id; n_cookie := 7; n_data := data; n_flags := flags; n_name := []; n_mime := []; n_pairs := [];
      n_lastmod := lastmod; n_ttl := t |}.
 
-Definition g4 : cfg := {| g_vttl := (0, 0); g_osz := 4 |}.
-Definition g5 : cfg := {| g_vttl := (0, 0); g_osz := 5 |}.
+Definition g4 : cfg := {| g_vttl := (0, 0) |}.
 Definition sec : N := 1000000000.
 
 (* 0: an empty blob *)
@@ -325,7 +318,6 @@ Definition w_empty_h1 : list cevent :=
 Lemma refuted_empty :
   Permutation [] (default_ord g4 w_empty_h1 []) /\
   ttl_consistent (g_vttl g4) 1000 (1001 * sec) w_empty_h1 = true /\
-  within_32g g4 Index 1000 [] w_empty_h1 [] = true /\
   reload_noop g4 Index 1000 [] w_empty_h1 [] = true /\
   read_of (compacted g4 Index 1000 [] w_empty_h1 []) (1001 * sec) 1 = None /\
   read_of (twin g4 w_empty_h1 []) (1001 * sec) 1 = Some (0%Z, blank_view 0).
@@ -338,7 +330,6 @@ Definition w_ttl_h1 : list cevent :=
 Lemma refuted_ttl :
   Permutation [] (default_ord g4 w_ttl_h1 []) /\
   has_empty (w_ttl_h1 ++ []) = false /\
-  within_32g g4 Index 1000 [] w_ttl_h1 [] = true /\
   reload_noop g4 Index 1000 [] w_ttl_h1 [] = true /\
   read_of (compacted g4 Index 1000 [] w_ttl_h1 []) (1001 * sec) 1 = None /\
   read_of (twin g4 w_ttl_h1 []) (1001 * sec) 1 = Some (1%Z, view_of (nd 1 [5] 24 1000 (3, 3))).
@@ -352,32 +343,24 @@ Lemma refuted_scan :
   Permutation [] (default_ord g4 w_scan_h1 []) /\
   has_empty (w_scan_h1 ++ []) = false /\
   ttl_consistent (g_vttl g4) 1000 (1001 * sec) w_scan_h1 = true /\
-  within_32g g4 Scan 1000 [] w_scan_h1 [] = true /\
   check_files (compacted_files g4 Scan 1000 [] w_scan_h1 []) = (0%nat, Some 48, false) /\
   read_of (compacted g4 Scan 1000 [] w_scan_h1 []) (1001 * sec) 1 = None /\
   read_of (twin g4 w_scan_h1 []) (1001 * sec) 1 = Some (1%Z, view_of (nd 1 [7] 8 1000 (0, 0))).
 Proof. vm_compute. repeat split; try reflexivity; apply Permutation_refl. Qed.
 
-(* 3: 5-byte offsets, a write beyond 32 GiB while the compaction runs; the map is iterated
-   so that the damaged entry is not the last one, hence the integrity check sees nothing *)
+(* the former finding 3 (a write beyond 32 GiB while the compaction runs, lost with 5-byte
+   offsets because makeupDiff patched four offset bytes only) is repaired: the same history
+   now reads the same on both volumes, for both iteration orders of the map *)
 Definition w_hi_h1 : list cevent := [(1000 * sec, CWrite (nd 1 [5] 8 1000 (0, 0)))].
 Definition w_hi_h2 : list cevent :=
   [(1000 * sec, CWrite (nd 3 [6] 8 1000 (0, 0))); (0, CPad 34359738432); (1000 * sec, CWrite (nd 2 [7] 8 1000 (0, 0)))].
 
-Lemma refuted_fifth_byte :
-  Permutation [2; 3] (default_ord g5 w_hi_h1 w_hi_h2) /\
-  has_empty (w_hi_h1 ++ w_hi_h2) = false /\
-  ttl_consistent (g_vttl g5) 1000 (1001 * sec) w_hi_h1 = true /\
-  reload_noop g5 Index 1000 [2; 3] w_hi_h1 w_hi_h2 = true /\
-  read_of (compacted g5 Index 1000 [2; 3] w_hi_h1 w_hi_h2) (1001 * sec) 2 = None /\
-  read_of (twin g5 w_hi_h1 w_hi_h2) (1001 * sec) 2 = Some (1%Z, view_of (nd 2 [7] 8 1000 (0, 0))).
-Proof. vm_compute. repeat split; try reflexivity; apply Permutation_refl. Qed.
-
-(* ... and when it is the last one, the check cuts the entry and the blob off *)
-Lemma fifth_byte_truncates :
-  check_files (compacted_files g5 Index 1000 [3; 2] w_hi_h1 w_hi_h2) = (1%nat, Some 88, false) /\
-  read_of (compacted g5 Index 1000 [3; 2] w_hi_h1 w_hi_h2) (1001 * sec) 2 = None.
-Proof. vm_compute. split; reflexivity. Qed.
+Lemma beyond_32g_ok : forall ord, ord = [2; 3] \/ ord = [3; 2] ->
+  reload_noop g4 Index 1000 ord w_hi_h1 w_hi_h2 = true /\
+  map (read_of (compacted g4 Index 1000 ord w_hi_h1 w_hi_h2) (1001 * sec)) [1; 2; 3] =
+  map (read_of (twin g4 w_hi_h1 w_hi_h2) (1001 * sec)) [1; 2; 3] /\
+  read_of (twin g4 w_hi_h1 w_hi_h2) (1001 * sec) 2 = Some (1%Z, view_of (nd 2 [7] 8 1000 (0, 0))).
+Proof. intros ord [->| ->]; vm_compute; repeat split; reflexivity. Qed.
 
 (* ---------- non-vacuity ---------- *)
 Definition ex_h1 : list cevent :=
@@ -390,7 +373,6 @@ Lemma example_ok : forall al,
   let ord := default_ord g4 ex_h1 ex_h2 in
   has_empty (ex_h1 ++ ex_h2) = false /\
   ttl_consistent (g_vttl g4) 1000 (1001 * sec) ex_h1 = true /\
-  within_32g g4 al 1000 ord ex_h1 ex_h2 = true /\
   reload_noop g4 al 1000 ord ex_h1 ex_h2 = true /\
   map (fun k => option_map fst (read_of (compacted g4 al 1000 ord ex_h1 ex_h2) (1001 * sec) k)) [1; 2; 3; 4; 5]
   = [None; Some 1%Z; None; Some 1%Z; None] /\
